@@ -611,7 +611,17 @@ func (wd *world) redistribute(n, amt, fpb int) (ev, []*txrec) {
 func (wd *world) split(n, mn int) ev {
 	e := ev{"op": "Split", "n": n, "min": mn, "d": []Desc{}, "cons": true}
 	before := time.Now()
-	txn, err := wd.w.SplitUTXO(n, cur(mn))
+	txn, err := func() (txn types.V2Transaction, err error) {
+		// SplitUTXO calls chain.Manager.V2TransactionSet, which can index the wrong pool slice
+		// (see broadcast) when the largest output was made by a pooled v1 transaction
+		defer func() {
+			if p := recover(); p != nil {
+				err = fmt.Errorf("panic: %v", p)
+				e["panic"] = true
+			}
+		}()
+		return wd.w.SplitUTXO(n, cur(mn))
+	}()
 	wd.check(before)
 	switch {
 	case err != nil:
@@ -671,16 +681,48 @@ func (wd *world) broadcast(t *txrec) (e ev) {
 		}
 	}()
 	var err error
+	misordered := false
 	if t.ver == 1 {
 		set := append(wd.cm.UnconfirmedParents(t.v1), t.v1)
+		made := map[types.SiacoinOutputID]int{}
+		for i, txn := range set {
+			for j := range txn.SiacoinOutputs {
+				made[txn.SiacoinOutputID(j)] = i
+			}
+		}
+		for i, txn := range set {
+			for _, in := range txn.SiacoinInputs {
+				if j, ok := made[in.ParentID]; ok && j > i {
+					misordered = true
+				}
+			}
+		}
 		_, err = wd.cm.AddPoolTransactions(set)
 	} else {
 		var basis types.ChainIndex
 		var set []types.V2Transaction
 		basis, set, err = wd.cm.V2TransactionSet(t.basis, t.v2.DeepCopy())
 		if err == nil {
+			made := map[types.SiacoinOutputID]int{}
+			for i, txn := range set {
+				id := txn.ID()
+				for j := range txn.SiacoinOutputs {
+					made[txn.SiacoinOutputID(id, j)] = i
+				}
+			}
+			for i, txn := range set {
+				for _, in := range txn.SiacoinInputs {
+					if j, ok := made[in.Parent.ID]; ok && j > i {
+						misordered = true
+					}
+				}
+			}
 			err = wd.w.BroadcastV2TransactionSet(basis, set)
 		}
+	}
+	if err != nil && misordered {
+		// the set chain.Manager built for the transaction lists a child before its parent
+		e["misordered"] = true
 	}
 	if err != nil {
 		e["r"] = "rej"
